@@ -270,6 +270,17 @@ class NPMixin:
             jq = z3.Int('j!g')
             self.emit(self.site('index', node), st, z3.ForAll([jq], z3.Implies(z3.And(jq >= 0, jq < ix.shape[0]), z3.And(ix[jq] >= 0, ix[jq] < arr.shape[0]))))
             val = self.num(vv, arr.kind)
+            if arr.ndim == 1 and getattr(self.c, 'store_witness', False):
+                # same store, stated with an explicit witness function (which index addressed a changed cell): friendlier to instantiation
+                new = Arr(self.fresh('sstore', self.arr_sort(arr.kind)), arr.shape, arr.kind, arr.init, arr.meta)
+                Wf = self.fresh_fn('swit', [z3.IntSort()], z3.IntSort())
+                kq, qq = self.L.var('q'), self.L.var('q')
+                st.pc.append(z3.ForAll([kq], z3.Implies(z3.And(kq >= 0, kq < ix.shape[0]), new[ix[kq]] == val)))
+                st.pc.append(z3.ForAll([qq], z3.Implies(z3.And(qq >= 0, qq < arr.shape[0]),
+                                                        z3.Or(new[qq] == arr[qq], z3.And(Wf(qq) >= 0, Wf(qq) < ix.shape[0], ix[Wf(qq)] == qq, new[qq] == val)))))
+                st.facts['store:' + (ast.unparse(node)[:40] if node is not None else 'scalar')] = z3.And(*st.pc[-2:])
+                st.heap[base.oid] = new
+                return st
             if arr.ndim == 1:
                 new = self.lam(lambda a_: z3.If(self.L.member(ix, a_), val, arr[a_]), arr.shape, arr.kind)
             else:
@@ -1030,6 +1041,15 @@ class NPMixin:
                 else:
                     raise Unsupported('missing argument %s in call of %s' % (nm, key))
         L = self.L
+        # a range object passed where the contract speaks about an integer sequence: the same sequence as an array
+        for nm in getattr(c, 'range_as_array', ()):
+            v = self.deref(st, args.get(nm))
+            if isinstance(v, Tup) and v.items and isinstance(v.items[0], Opaque) and v.items[0].tag == 'range':
+                from .prims import seq_view
+                ln_, get_ = seq_view(self, st, args[nm])
+                a_ = self.lam(lambda i_: get_(i_), (ln_,), 'int')
+                a_.meta = {'list': True}
+                args[nm] = self.new_obj(st, a_)
         # row-wise contracts lift through boolean masks: f(X[mask]) = f(X)[mask]   (DESIGN 2.5)
         lift_mask = None
         for nm in getattr(c, 'rowwise', ()):
@@ -1076,7 +1096,8 @@ class NPMixin:
         res = c.result(self, st, args)
         N = {nm: self.wrap(v, st) for nm, v in args.items()}
         R = self.wrap(res, st)
-        for name, g in c.ensures(L, A, N, R, ghost, None):
+        for clause_ in c.ensures(L, A, N, R, ghost, None):
+            name, g = clause_[0], clause_[1]
             gz = _z(g) if not isinstance(g, bool) else z3.BoolVal(g)
             st.pc.append(gz)
             fk, kk = '%s:%s' % (short, name), 1
